@@ -3,6 +3,9 @@ import Lemmas.EvalBound
 import Lemmas.EvalVars
 import Lemmas.EvalFixedTree
 import Lemmas.EvalFixedBound
+import Lemmas.EvalFloatTree
+import Lemmas.EvalFloatBound
+import Lemmas.EvalSoftFloat
 import Lemmas.EvalState
 import Lemmas.Fixed64
 import Generated.Facts
@@ -12,8 +15,11 @@ Property theorems only.  The executable model is `Model/Eval.lean` (`Eval.parseL
 `evalNode`, `evaluate` … — the definitions the driver `drv_c09` runs against `eval.Evaluator` on every check); helper
 lemmas are in `Lemmas/EvalTotal.lean` (totality), `Lemmas/EvalTok.lean` (token machine, spine invariant),
 `Lemmas/EvalLex.lean` (lexing bridge), `Lemmas/EvalCall.lean` (call capture, `NextArg`), `Lemmas/EvalRender.lean`,
-`Lemmas/EvalFull.lean` (the full language `X`), `Lemmas/EvalVars.lean` (variables) and `Lemmas/EvalBound.lean`
-(no panic for `Evaluate`).  The operator tables are
+`Lemmas/EvalFull.lean` (the full language `X`), `Lemmas/EvalVars.lean` (variables), `Lemmas/EvalBound.lean`
+(no panic for `Evaluate`), `Lemmas/EvalFixedTree.lean` / `Lemmas/EvalFixedBound.lean` (values of the fixed evaluator,
+`Model/EvalFixed.lean`), `Lemmas/EvalFloatTree.lean` / `Lemmas/EvalFloatBound.lean` (values of the float evaluators,
+`Model/EvalFloat.lean`) and `Lemmas/EvalSoftFloat.lean` (the IEEE-754 arithmetic `Model/EvalSoftFloat.lean`).  The
+operator tables are
 `Facts.fixedOperators` / `Facts.floatOperators`, regenerated from the Go source on every run. -/
 namespace C09
 open Eval
@@ -923,5 +929,500 @@ example : ∃ (e : X) (f : Bytes → Bytes), e.WF stdOps (Facts.fixedFunctions.m
   · simp only [X.Ar, XL.Ar, XL.length]; decide
 
 end FixedValues
+
+
+/-! ## values of the floating-point evaluators (`Model/EvalFloat.lean`: `eval/float_operators.go`, `eval/float_function.go`
+    over the IEEE-754 arithmetic on BIT PATTERNS of `Model/EvalSoftFloat.lean` — exact rationals, round to nearest even,
+    `strconv.ParseFloat` on decimal literals); the driver computes these values and the `flval` stream compares them
+    with `NewFloatEvaluator[float64|float32](…).Evaluate` directly, bit for bit.  Outside the model: `^`, sqrt, cbrt,
+    exp, exp2, log, log10, log1p, hexadecimal / `_` literals, the `%v` text of a number. -/
+section FloatValues
+open EvalFloat
+
+/-- the two formats of `NewFloatEvaluator`: `float64` and `float32` -/
+def FloatCfg (c : Cfg) : Prop := c.fmt = SoftFloat.f64 ∨ c.fmt = SoftFloat.f32
+
+/-- in both formats the value 1 (which `if` uses for a non-numeric true condition, and a true comparison counts as) is
+    not zero -/
+theorem float_one_ne_zero (c : Cfg) (h : FloatCfg c) : SoftFloat.isZero c.fmt c.fmt.oneBits = false := by
+  rcases h with h | h <;> rw [h] <;> decide
+
+/-- **main clause, values, floating-point evaluators** ("the fixed-point and floating-point evaluators return the value
+    obtained by evaluating the expression tree with conventional precedence, left-to-right associativity, and each
+    operator applied with the library's own … float arithmetic; whitespace never changes the result"): for
+    `NewFloatEvaluator[float64]` and `[float32]`, both division-by-zero settings, every well-formed expression of the
+    full language without variables in ANY blank layout, `Evaluate` of the float evaluator — `EvalFloat.evaluate`, the
+    function the driver runs for the `flval` stream — returns the value of the expression TREE `X.fval`: an atom is
+    its text, a sign applies to its operand only, a binary node applies `EvalFloat.binary` (operand conversion
+    `floatFrom` = `strconv.ParseFloat` at the evaluator's bit size, then the IEEE-754 operation on bit patterns of
+    `Model/EvalSoftFloat.lean`, the comparisons, the string fall-backs) to the values of its operands, left first, a
+    call applies the function (abs ceil floor round max min if) to the values of its arguments.  `^`, sqrt, cbrt,
+    exp, exp2, log, log10, log1p are `outside` on both sides. -/
+theorem float_value_render (c : Cfg) (hc : FloatCfg c) (fns : List Bytes)
+    (resolve : Option (Bytes → Bytes)) (e : X) (hw : e.WF stdOps fns lpOp.prec) (he : e.Ev) (har : e.Ar)
+    (ws : Nat → Bytes) (hws : ∀ k, Blank (ws k)) (depth : Nat) (hd : e.cd ≤ depth) :
+    EvalFloat.evaluate c floatOps fns resolve (depth + 1) (e.render lpOp rpOp ws) = e.fval c := by
+  rw [float_table_eq]
+  exact X.fl_evaluate_render c (float_one_ne_zero c hc) stdOps fns resolve lpOp rpOp table_full e hw he har ws hws depth hd
+
+/-- … in particular with the budget the driver uses (`driverBudget`) -/
+theorem float_value_render_driver (c : Cfg) (hc : FloatCfg c) (fns : List Bytes)
+    (resolve : Option (Bytes → Bytes)) (e : X) (hw : e.WF stdOps fns lpOp.prec) (he : e.Ev) (har : e.Ar)
+    (ws : Nat → Bytes) (hws : ∀ k, Blank (ws k)) :
+    EvalFloat.evaluate c floatOps fns resolve (driverBudget (e.render lpOp rpOp ws) + 1) (e.render lpOp rpOp ws) = e.fval c :=
+  float_value_render c hc fns resolve e hw he har ws hws _ (by
+    have := X.cd_le_render lpOp rpOp e ws
+    unfold driverBudget; omega)
+
+/-- clause "whitespace never changes the result", float values: two layouts of one expression have the same value -/
+theorem float_value_whitespace (c : Cfg) (hc : FloatCfg c) (fns : List Bytes)
+    (resolve : Option (Bytes → Bytes)) (e : X) (hw : e.WF stdOps fns lpOp.prec) (he : e.Ev) (har : e.Ar)
+    (ws₁ ws₂ : Nat → Bytes) (h₁ : ∀ k, Blank (ws₁ k)) (h₂ : ∀ k, Blank (ws₂ k)) :
+    EvalFloat.evaluate c floatOps fns resolve (driverBudget (e.render lpOp rpOp ws₁) + 1) (e.render lpOp rpOp ws₁) =
+      EvalFloat.evaluate c floatOps fns resolve (driverBudget (e.render lpOp rpOp ws₂) + 1) (e.render lpOp rpOp ws₂) := by
+  rw [float_value_render_driver c hc fns resolve e hw he har ws₁ h₁,
+    float_value_render_driver c hc fns resolve e hw he har ws₂ h₂]
+
+/-- **float values with variables**: for every resolver that answers the variables of the expression with literals,
+    `Evaluate` of the float evaluator on any layout returns the value of the tree of the SUBSTITUTED expression, at
+    top level and inside call arguments -/
+theorem float_value_render_vars (c : Cfg) (hc : FloatCfg c) (fns : List Bytes)
+    (f : Bytes → Bytes) (e : X) (hw : e.WF stdOps fns lpOp.prec) (he : e.EvAll stdOps f) (har : e.Ar)
+    (ws : Nat → Bytes) (hws : ∀ k, Blank (ws k)) (depth : Nat) (hd : e.cd ≤ depth) :
+    EvalFloat.evaluate c floatOps fns (some f) (depth + 1) (e.render lpOp rpOp ws) = (e.substAll f).fval c := by
+  rw [float_table_eq]
+  exact X.fl_evaluate_render_all c (float_one_ne_zero c hc) stdOps fns f lpOp rpOp table_full table_var_stop e hw he har
+    ws hws depth hd
+
+/-- the float value of a well-formed expression is a value, an error, or outside the model — never a Go panic -/
+theorem float_value_no_panic (c : Cfg) (hc : FloatCfg c) (fns : List Bytes)
+    (resolve : Option (Bytes → Bytes)) (e : X) (hw : e.WF stdOps fns lpOp.prec) (he : e.Ev) (har : e.Ar)
+    (ws : Nat → Bytes) (hws : ∀ k, Blank (ws k)) :
+    EvalFloat.evaluate c floatOps fns resolve (driverBudget (e.render lpOp rpOp ws) + 1) (e.render lpOp rpOp ws) ≠ .panic := by
+  rw [float_value_render_driver c hc fns resolve e hw he har ws hws]
+  exact X.fval_ne_panic c e
+
+/-- robustness of the float VALUE model (clause "for every input string whatsoever … without panicking"): for EVERY
+    byte list, every format / division setting and every resolver whose answers contain no `$`, `Evaluate` of the
+    float evaluator never reaches a Go panic and, beyond a finite budget, never exhausts the model's nesting budget -/
+theorem float_evaluate_no_panic (c : Cfg) (fns : List Bytes)
+    (f : Bytes → Bytes) (s : Bytes) (h36 : ∀ n, (36 : Nat) ∉ f n) :
+    ∃ D, ∀ d, D ≤ d → EvalFloat.evaluate c floatOps fns (some f) d s ≠ .panic := by
+  rw [float_table_eq]
+  exact EvalFloat.evaluate_terminates c stdOps fns table_lexable.ne (some f)
+    (by intro g hg; injection hg with hg; subst hg; exact h36) s
+
+/-- … with the budget the driver uses, for answers at most 32 bytes longer than `$name` -/
+theorem float_evaluate_no_panic_driver (c : Cfg) (fns : List Bytes) (resolve : Option (Bytes → Bytes))
+    (hres : ∀ f, resolve = some f → (∀ n, (36 : Nat) ∉ f n) ∧ (∀ n, (f n).length ≤ n.length + 33)) (s : Bytes) :
+    EvalFloat.evaluate c floatOps fns resolve (driverBudget s + 1) s ≠ .panic := by
+  rw [float_table_eq]
+  refine EvalFloat.evaluate_no_panic_growth c stdOps fns table_lexable.ne resolve 32 s ?_ _ ?_
+  · intro f hf
+    exact ⟨(hres f hf).1, fun n _ => by have := (hres f hf).2 n; omega⟩
+  · unfold driverBudget; omega
+
+/-- operands of the float evaluators: a literal text is converted by `strconv.ParseFloat(a, bits)` (the model
+    `SoftFloat.parse` at the evaluator's own format — NOT parsed at 64 bits and narrowed), a comparison result counts
+    as 1.0 / 0, a number is itself -/
+theorem float_operand_conversion (c : Cfg) (x : Bytes) (bits : Nat) (b : Bool) :
+    (SoftFloat.parse c.fmt x = .ok bits → floatFrom c (.str x) = .ok bits) ∧
+    (SoftFloat.parse c.fmt x = .err → floatFrom c (.str x) = .err) ∧
+    floatFrom c (.bool b) = .ok (if b then c.fmt.oneBits else 0) ∧
+    floatFrom c (.num bits) = .ok bits := by
+  refine ⟨?_, ?_, rfl, rfl⟩ <;> intro h <;> simp [floatFrom, h]
+
+/-- "each operator applied with the library's own float arithmetic": on numbers the operators of the table ARE the
+    IEEE-754 operations of `Model/EvalSoftFloat.lean` on the bit patterns — `+ - *` correctly rounded, `/` and `%`
+    (`math.Mod`) for a non-zero divisor, the comparisons (false on NaN), `&& ||` on "is not ±0" -/
+theorem float_operators_are_ieee (c : Cfg) (a b : Nat) :
+    binary c (symBytes "+") (.num a) (.num b) = .ok (.num (SoftFloat.add c.fmt a b)) ∧
+    binary c (symBytes "-") (.num a) (.num b) = .ok (.num (SoftFloat.sub c.fmt a b)) ∧
+    binary c (symBytes "*") (.num a) (.num b) = .ok (.num (SoftFloat.mul c.fmt a b)) ∧
+    (SoftFloat.isZero c.fmt b = false →
+      binary c (symBytes "/") (.num a) (.num b) = .ok (.num (SoftFloat.div c.fmt a b)) ∧
+      binary c (symBytes "%") (.num a) (.num b) = .ok (.num (SoftFloat.fmod c.fmt a b))) ∧
+    binary c (symBytes "<") (.num a) (.num b) = .ok (.bool (SoftFloat.lt c.fmt a b)) ∧
+    binary c (symBytes "<=") (.num a) (.num b) = .ok (.bool (SoftFloat.le c.fmt a b)) ∧
+    binary c (symBytes ">") (.num a) (.num b) = .ok (.bool (SoftFloat.lt c.fmt b a)) ∧
+    binary c (symBytes ">=") (.num a) (.num b) = .ok (.bool (SoftFloat.le c.fmt b a)) ∧
+    binary c (symBytes "==") (.num a) (.num b) = .ok (.bool (SoftFloat.eq c.fmt a b)) ∧
+    binary c (symBytes "!=") (.num a) (.num b) = .ok (.bool (!SoftFloat.eq c.fmt a b)) ∧
+    binary c (symBytes "&&") (.num a) (.num b) = .ok (.bool (!SoftFloat.isZero c.fmt a && !SoftFloat.isZero c.fmt b)) ∧
+    binary c (symBytes "||") (.num a) (.num b) = .ok (.bool (!SoftFloat.isZero c.fmt a || !SoftFloat.isZero c.fmt b)) := by
+  refine ⟨?_, ?_, ?_, ?_, ?_, ?_, ?_, ?_, ?_, ?_, ?_, ?_⟩
+  · simp [binary, symBytes, String.utf8EncodeChar, opAdd, withFallback, floatFrom]
+  · simp [binary, symBytes, String.utf8EncodeChar, opSub, bothNum, floatFrom]
+  · simp [binary, symBytes, String.utf8EncodeChar, opMul, bothNum, floatFrom]
+  · intro hb
+    constructor
+    · simp [binary, symBytes, String.utf8EncodeChar, opDiv, bothNum, floatFrom, hb]
+    · simp [binary, symBytes, String.utf8EncodeChar, opMod, bothNum, floatFrom, hb]
+  · simp [binary, symBytes, String.utf8EncodeChar, opLt, withFallback, floatFrom]
+  · simp [binary, symBytes, String.utf8EncodeChar, opLe, withFallback, floatFrom]
+  · simp [binary, symBytes, String.utf8EncodeChar, opGt, withFallback, floatFrom]
+  · simp [binary, symBytes, String.utf8EncodeChar, opGe, withFallback, floatFrom]
+  · simp [binary, symBytes, String.utf8EncodeChar, opEq, withFallback, floatFrom]
+  · simp [binary, symBytes, String.utf8EncodeChar, opNe, withFallback, floatFrom]
+  · simp [binary, symBytes, String.utf8EncodeChar, opAnd, floatFrom, nonZero]
+    cases SoftFloat.isZero c.fmt a <;> simp
+  · simp [binary, symBytes, String.utf8EncodeChar, opOr, floatFrom, nonZero]
+    cases SoftFloat.isZero c.fmt a <;> simp
+
+/-- clause "division by zero yields zero or an error as configured", float evaluators: whenever the right operand
+    converts to a zero (`0`, `-0`, `0.0`, `1e-400`, a false comparison, a computed zero …) and the left operand is a
+    number, `/` and `%` return THAT zero (Go: `return r, nil` — the sign of the divisor is kept) with
+    `divideByZeroReturnsZero` and an error without — never ±Inf or NaN -/
+theorem float_div_by_zero_configured (c : Cfg) (l r : Val) (x y : Nat) (hl : floatFrom c l = .ok x)
+    (hr : floatFrom c r = .ok y) (hy : SoftFloat.isZero c.fmt y = true) :
+    binary c (symBytes "/") l r = (if c.zero then .ok (.num y) else .err) ∧
+    binary c (symBytes "%") l r = (if c.zero then .ok (.num y) else .err) := by
+  constructor
+  · simp [binary, symBytes, String.utf8EncodeChar, opDiv, bothNum, hl, hr, hy]
+  · simp [binary, symBytes, String.utf8EncodeChar, opMod, bothNum, hl, hr, hy]
+
+/-- … and end to end: `Evaluate` of `l / r` (or `l % r`) in any layout, for operands whose values are a number and a zero -/
+theorem float_div_by_zero_render (c : Cfg) (hc : FloatCfg c) (fns : List Bytes)
+    (resolve : Option (Bytes → Bytes)) (o : Op) (l r : X) (ho : o.sym = symBytes "/" ∨ o.sym = symBytes "%")
+    (hw : (X.bin o l r).WF stdOps fns lpOp.prec) (he : (X.bin o l r).Ev) (har : (X.bin o l r).Ar)
+    (lv rv : Val) (x y : Nat) (hlv : l.fval c = .ok lv) (hrv : r.fval c = .ok rv) (hl : floatFrom c lv = .ok x)
+    (hr : floatFrom c rv = .ok y) (hy : SoftFloat.isZero c.fmt y = true) (ws : Nat → Bytes) (hws : ∀ k, Blank (ws k)) :
+    EvalFloat.evaluate c floatOps fns resolve (driverBudget ((X.bin o l r).render lpOp rpOp ws) + 1)
+      ((X.bin o l r).render lpOp rpOp ws) = (if c.zero then .ok (.num y) else .err) := by
+  rw [float_value_render_driver c hc fns resolve _ hw he har ws hws]
+  have h := float_div_by_zero_configured c lv rv x y hl hr hy
+  simp only [X.fval, hlv, hrv, VR.bind]
+  rcases ho with ho | ho <;> rw [ho]
+  · rw [h.1]
+  · rw [h.2]
+
+/-- CONTRAST (the statement depends on the `r == 0` test of floatDivide / floatModulo): plain IEEE-754 division of 1 by
+    0 is +Inf and `math.Mod(1, 0)` is NaN — neither "zero" nor "an error"; the operators of the table return 0 resp. an
+    error as configured -/
+theorem float_zero_test_is_needed :
+    SoftFloat.div SoftFloat.f64 SoftFloat.f64.oneBits 0 = SoftFloat.f64.infBits ∧
+    SoftFloat.isNaN SoftFloat.f64 (SoftFloat.fmod SoftFloat.f64 SoftFloat.f64.oneBits 0) = true ∧
+    binary ⟨SoftFloat.f64, true⟩ (symBytes "/") (.num SoftFloat.f64.oneBits) (.num 0) = .ok (.num 0) ∧
+    binary ⟨SoftFloat.f64, false⟩ (symBytes "/") (.num SoftFloat.f64.oneBits) (.num 0) = .err ∧
+    binary ⟨SoftFloat.f64, true⟩ (symBytes "%") (.num SoftFloat.f64.oneBits) (.num 0) = .ok (.num 0) ∧
+    binary ⟨SoftFloat.f64, false⟩ (symBytes "%") (.num SoftFloat.f64.oneBits) (.num 0) = .err := by decide
+
+/-- clause "a sign or negation written before an operand applies to that operand only", float values: on a literal
+    that `ParseFloat` reads as `bits`, `-` flips the sign bit, `+` is the number itself, `!` is whether it is ±0 -/
+theorem float_sign_on_literal (c : Cfg) (x : Bytes) (bits : Nat) (h : SoftFloat.parse c.fmt x = .ok bits) :
+    unary c (symBytes "-") (.str x) = .ok (.num (SoftFloat.neg c.fmt bits)) ∧
+    unary c (symBytes "+") (.str x) = .ok (.num bits) ∧
+    unary c (symBytes "!") (.str x) = .ok (.bool (SoftFloat.isZero c.fmt bits)) := by
+  refine ⟨?_, ?_, ?_⟩
+  · simp [unary, symBytes, String.utf8EncodeChar, opNeg, floatFrom, h]
+  · simp [unary, symBytes, String.utf8EncodeChar, opPlus, floatFrom, h]
+  · simp [unary, symBytes, String.utf8EncodeChar, opNot, floatFrom, h]
+
+/-- … end to end: `a o u b` evaluates to `o` applied to the value of `a` and the SIGNED value of `b` (the sign does not
+    reach `a`), and `u a o b` to `o` applied to the signed value of `a` and the value of `b`, in every layout -/
+theorem float_sign_applies_to_operand_value (c : Cfg) (hc : FloatCfg c) (fns : List Bytes)
+    (resolve : Option (Bytes → Bytes)) (a b : Bytes) (o u : Op)
+    (hw1 : (X.bin o (.atom none a) (.atom (some u) b)).WF stdOps fns lpOp.prec)
+    (hw2 : (X.bin o (.atom (some u) a) (.atom none b)).WF stdOps fns lpOp.prec)
+    (hea : (44 : Nat) ∉ a ∧ (36 : Nat) ∉ a) (heb : (44 : Nat) ∉ b ∧ (36 : Nat) ∉ b) (hob : o.bin = true)
+    (ws : Nat → Bytes) (hws : ∀ k, Blank (ws k)) :
+    EvalFloat.evaluate c floatOps fns resolve (driverBudget ((X.bin o (.atom none a) (.atom (some u) b)).render lpOp rpOp ws) + 1)
+        ((X.bin o (.atom none a) (.atom (some u) b)).render lpOp rpOp ws) =
+      (unary c u.sym (.str b)).bind (fun vb => binary c o.sym (.str a) vb) ∧
+    EvalFloat.evaluate c floatOps fns resolve (driverBudget ((X.bin o (.atom (some u) a) (.atom none b)).render lpOp rpOp ws) + 1)
+        ((X.bin o (.atom (some u) a) (.atom none b)).render lpOp rpOp ws) =
+      (unary c u.sym (.str a)).bind (fun va => binary c o.sym va (.str b)) := by
+  have hu : u.un = true := by
+    simp only [X.WF] at hw1
+    exact (hw1.2.2.2.2.2.1.1 u rfl).2
+  constructor
+  · rw [float_value_render_driver c hc fns resolve _ hw1 ⟨hob, hea, heb⟩ ⟨trivial, trivial⟩ ws hws]
+    simp [X.fval, EvalFloat.applyUn, hu, VR.bind]
+  · rw [float_value_render_driver c hc fns resolve _ hw2 ⟨hob, hea, heb⟩ ⟨trivial, trivial⟩ ws hws]
+    simp [X.fval, EvalFloat.applyUn, hu, VR.bind]
+
+/-- the standard functions of the float evaluators on converted argument values: abs clears the sign bit, ceil /
+    floor / round (halves away from zero) are the exact integral roundings, max / min fold the built-in `max` / `min`
+    (`max(value, maxValue)` starting from −MaxFloat resp. +MaxFloat; NaN if any is NaN; +0 above −0), `if` takes its
+    second argument for a condition that is not ±0 and the third otherwise -/
+theorem float_functions_are_ieee (c : Cfg) (x y : Nat) (a b : VR Val) :
+    callV c (symBytes "abs") [.ok (.num x)] = .ok (.num (SoftFloat.abs c.fmt x)) ∧
+    callV c (symBytes "ceil") [.ok (.num x)] = .ok (.num (SoftFloat.ceil c.fmt x)) ∧
+    callV c (symBytes "floor") [.ok (.num x)] = .ok (.num (SoftFloat.floor c.fmt x)) ∧
+    callV c (symBytes "round") [.ok (.num x)] = .ok (.num (SoftFloat.round c.fmt x)) ∧
+    callV c (symBytes "max") [.ok (.num x), .ok (.num y)] =
+      .ok (.num (SoftFloat.fmax c.fmt y (SoftFloat.fmax c.fmt x (SoftFloat.withSign c.fmt true c.fmt.maxBits)))) ∧
+    callV c (symBytes "min") [.ok (.num x), .ok (.num y)] =
+      .ok (.num (SoftFloat.fmin c.fmt y (SoftFloat.fmin c.fmt x c.fmt.maxBits))) ∧
+    callV c (symBytes "if") [.ok (.num x), a, b] = (if SoftFloat.isZero c.fmt x then b else a) := by
+  refine ⟨?_, ?_, ?_, ?_, ?_, ?_, ?_⟩ <;>
+    simp [callV, symBytes, String.utf8EncodeChar, one, foldV, ifV, VR.bind, floatFrom]
+
+/-- a comparison or logical result used as a number is 1.0 of the evaluator's format -/
+theorem float_bool_counts_as_one (c : Cfg) (b : Bool) (x : Nat) :
+    binary c (symBytes "+") (.bool b) (.num x) = .ok (.num (SoftFloat.add c.fmt (if b then c.fmt.oneBits else 0) x)) ∧
+    binary c (symBytes "*") (.bool b) (.num x) = .ok (.num (SoftFloat.mul c.fmt (if b then c.fmt.oneBits else 0) x)) := by
+  constructor
+  · simp [binary, symBytes, String.utf8EncodeChar, opAdd, withFallback, floatFrom]
+  · simp [binary, symBytes, String.utf8EncodeChar, opMul, bothNum, floatFrom]
+
+/-- the string fall-backs of the float operators: when the left operand is not a number, `+` concatenates the texts
+    and the comparisons compare them byte-wise (`- * / %` are errors) -/
+theorem float_string_fallbacks (c : Cfg) (a b : Bytes) (ha : SoftFloat.parse c.fmt a = .err) :
+    binary c (symBytes "+") (.str a) (.str b) = .ok (.str (a ++ b)) ∧
+    binary c (symBytes "==") (.str a) (.str b) = .ok (.bool (a == b)) ∧
+    binary c (symBytes "<") (.str a) (.str b) = .ok (.bool (strLt a b)) ∧
+    binary c (symBytes "-") (.str a) (.str b) = .err ∧ binary c (symBytes "*") (.str a) (.str b) = .err ∧
+    binary c (symBytes "/") (.str a) (.str b) = .err ∧ binary c (symBytes "%") (.str a) (.str b) = .err := by
+  refine ⟨?_, ?_, ?_, ?_, ?_, ?_, ?_⟩ <;>
+    simp [binary, symBytes, String.utf8EncodeChar, opAdd, opEq, opLt, opSub, opMul, opDiv, opMod, withFallback, bothNum,
+      floatFrom, ha, fmtV, onTexts]
+
+
+/-- `!=` on Go bools (the sign of a product) is symmetric -/
+theorem bne_symm (s t : Bool) : (s != t) = (t != s) := by cases s <;> cases t <;> rfl
+
+/-- sanity of the IEEE model: multiplication of non-NaN values is commutative bit for bit (signs, infinities, zeros included) -/
+theorem float_mul_comm (f : SoftFloat.Fmt) (a b : Nat) (ha : SoftFloat.isNaN f a = false) (hb : SoftFloat.isNaN f b = false)
+    (hda : SoftFloat.decode f a ≠ .nan) (hdb : SoftFloat.decode f b ≠ .nan) :
+    SoftFloat.mul f a b = SoftFloat.mul f b a := by
+  unfold SoftFloat.mul
+  cases h1 : SoftFloat.decode f a <;> cases h2 : SoftFloat.decode f b <;> simp_all [bne_symm, Nat.mul_comm, Int.add_comm]
+
+/-- sanity of the IEEE model: on non-NaN values exactly the usual order — trichotomy, `<=` is `<` or `==`, `<` is
+    asymmetric and irreflexive (−0 and +0 differ in bits but `key` orders them adjacent: see the examples) -/
+theorem float_order_total (f : SoftFloat.Fmt) (a b : Nat) (ha : SoftFloat.isNaN f a = false) (hb : SoftFloat.isNaN f b = false) :
+    (SoftFloat.lt f a b = true ∨ SoftFloat.eq f a b = true ∨ SoftFloat.lt f b a = true) ∧
+    (SoftFloat.le f a b = (SoftFloat.lt f a b || SoftFloat.eq f a b)) ∧
+    (SoftFloat.lt f a b = true → SoftFloat.lt f b a = false) ∧ SoftFloat.lt f a a = false := by
+  simp only [SoftFloat.lt, SoftFloat.le, SoftFloat.eq, ha, hb, Bool.not_false, Bool.true_and, decide_eq_true_eq,
+    decide_eq_false_iff_not, Bool.or_eq_true]
+  refine ⟨by omega, ?_, by omega, by omega⟩
+  by_cases h1 : SoftFloat.key f a < SoftFloat.key f b <;> by_cases h2 : SoftFloat.key f a = SoftFloat.key f b <;>
+    simp [h1, h2] <;> omega
+
+/-- … and every comparison with a NaN is false, `NaN == NaN` included (so `!=` is true) -/
+theorem float_nan_unordered (f : SoftFloat.Fmt) (a b : Nat) (ha : SoftFloat.isNaN f a = true) :
+    SoftFloat.lt f a b = false ∧ SoftFloat.lt f b a = false ∧ SoftFloat.le f a b = false ∧ SoftFloat.le f b a = false ∧
+    SoftFloat.eq f a b = false ∧ SoftFloat.eq f a a = false := by
+  simp [SoftFloat.lt, SoftFloat.le, SoftFloat.eq, ha]
+
+/-! IEEE-754 ground truth on concrete literals -/
+set_option maxRecDepth 8000 in
+example : SoftFloat.parse SoftFloat.f64 (symBytes "0.1") = .ok 0x3FB999999999999A := by decide
+set_option maxRecDepth 8000 in
+example : SoftFloat.parse SoftFloat.f64 (symBytes "0.2") = .ok 0x3FC999999999999A := by decide
+set_option maxRecDepth 8000 in
+example : SoftFloat.add SoftFloat.f64 0x3FB999999999999A 0x3FC999999999999A = 0x3FD3333333333334 := by decide
+set_option maxRecDepth 8000 in
+example : SoftFloat.parse SoftFloat.f64 (symBytes "0.3") = .ok 0x3FD3333333333333 := by decide
+set_option maxRecDepth 8000 in
+example : SoftFloat.parse SoftFloat.f32 (symBytes "16777217") = .ok 0x4B800000 := by decide
+set_option maxRecDepth 8000 in
+example : SoftFloat.parse SoftFloat.f32 (symBytes "16777219") = .ok 0x4B800002 := by decide
+set_option maxRecDepth 8000 in
+example : SoftFloat.parse SoftFloat.f64 (symBytes "9007199254740993") = .ok 0x4340000000000000 := by decide
+set_option maxRecDepth 8000 in
+example : SoftFloat.parse SoftFloat.f64 (symBytes "5e-324") = .ok 1 := by decide
+set_option maxRecDepth 8000 in
+example : SoftFloat.parse SoftFloat.f64 (symBytes "2.4e-324") = .ok 0 := by decide
+set_option maxRecDepth 8000 in
+example : SoftFloat.parse SoftFloat.f64 (symBytes "1.7976931348623157e308") = .ok 0x7FEFFFFFFFFFFFFF := by decide
+set_option maxRecDepth 8000 in
+example : SoftFloat.parse SoftFloat.f64 (symBytes "1.8e308") = .err := by decide
+set_option maxRecDepth 8000 in
+example : SoftFloat.parse SoftFloat.f32 (symBytes "3.4028235e38") = .ok 0x7F7FFFFF := by decide
+set_option maxRecDepth 8000 in
+example : SoftFloat.parse SoftFloat.f32 (symBytes "3.4028236e38") = .err := by decide
+set_option maxRecDepth 8000 in
+example : SoftFloat.parse SoftFloat.f64 (symBytes "-Inf") = .ok 0xFFF0000000000000 := by decide
+set_option maxRecDepth 8000 in
+example : SoftFloat.div SoftFloat.f64 0x3FF0000000000000 0x4008000000000000 = 0x3FD5555555555555 := by decide
+set_option maxRecDepth 8000 in
+example : SoftFloat.fmod SoftFloat.f64 0xC014000000000000 0x4008000000000000 = 0xC000000000000000 := by decide
+set_option maxRecDepth 8000 in
+example : SoftFloat.round SoftFloat.f64 0x4004000000000000 = 0x4008000000000000 := by decide
+set_option maxRecDepth 8000 in
+example : SoftFloat.round SoftFloat.f64 0x3FDFFFFFFFFFFFFF = 0 := by decide
+set_option maxRecDepth 8000 in
+example : SoftFloat.floor SoftFloat.f64 0xBFE0000000000000 = 0xBFF0000000000000 := by decide
+set_option maxRecDepth 8000 in
+example : SoftFloat.ceil SoftFloat.f64 0xBFE0000000000000 = 0x8000000000000000 := by decide
+set_option maxRecDepth 8000 in
+example : SoftFloat.fmax SoftFloat.f64 0x8000000000000000 0 = 0 := by decide
+set_option maxRecDepth 8000 in
+example : SoftFloat.fmin SoftFloat.f64 0 0x8000000000000000 = 0x8000000000000000 := by decide
+
+
+/-! non-vacuity of `float_value_render`: `7 - -2 * (3 + abs(-4))` is well-formed; its tree value in float64 is 21.0 and
+    in float32 21.0 as well (bit patterns 0x4035000000000000, 0x41A80000) -/
+example : ∃ e : X, e.WF stdOps (Facts.floatFunctions.map symBytes) lpOp.prec ∧ e.Ev ∧ e.Ar ∧
+    FloatCfg ⟨SoftFloat.f64, false⟩ ∧ FloatCfg ⟨SoftFloat.f32, true⟩ ∧
+    e.fval ⟨SoftFloat.f64, false⟩ = .ok (.num 0x4035000000000000) ∧ e.fval ⟨SoftFloat.f32, true⟩ = .ok (.num 0x41A80000) := by
+  have hm : (⟨symBytes "-", 50, true, true⟩ : Op) ∈ stdOps := by decide
+  have ht : (⟨symBytes "*", 60, true, false⟩ : Op) ∈ stdOps := by decide
+  have hpl : (⟨symBytes "+", 50, true, true⟩ : Op) ∈ stdOps := by decide
+  have a7 : AtomOK stdOps (symBytes "7") := ⟨by decide, by decide, by decide, by decide⟩
+  have a2 : AtomOK stdOps (symBytes "2") := ⟨by decide, by decide, by decide, by decide⟩
+  have a3 : AtomOK stdOps (symBytes "3") := ⟨by decide, by decide, by decide, by decide⟩
+  have a4 : AtomOK stdOps (symBytes "4") := ⟨by decide, by decide, by decide, by decide⟩
+  have fa : AtomOK stdOps (symBytes "abs") := ⟨by decide, by decide, by decide, by decide⟩
+  have ma : symBytes "abs" ∈ Facts.floatFunctions.map symBytes := by decide
+  have hn : optIn stdOps none := by intro v hv; cases hv
+  have hs : optIn stdOps (some ⟨symBytes "-", 50, true, true⟩) := by intro v hv; cases hv; exact ⟨hm, rfl⟩
+  have b0 : ∀ k : Nat, Blank ((fun _ => []) k) := by intro k c hc; cases hc
+  refine ⟨.bin ⟨symBytes "-", 50, true, true⟩ (.atom none (symBytes "7"))
+      (.bin ⟨symBytes "*", 60, true, false⟩ (.atom (some ⟨symBytes "-", 50, true, true⟩) (symBytes "2"))
+        (.paren none (.bin ⟨symBytes "+", 50, true, true⟩ (.atom none (symBytes "3"))
+          (.call none (symBytes "abs") [] (.cons (.atom (some ⟨symBytes "-", 50, true, true⟩) (symBytes "4")) (fun _ => []) .nil))))),
+    ?_, ?_, ?_, Or.inl rfl, Or.inr rfl, by decide, by decide⟩
+  · simp only [X.WF, XL.WF, X.minPrec, geP, gtP]
+    exact ⟨hm, by decide, by decide, by decide, ⟨hn, a7⟩, ⟨ht, by decide, by decide, by decide, ⟨hs, a2⟩,
+      ⟨hn, hpl, by decide, by decide, by decide, ⟨hn, a3⟩, ⟨hn, fa, ma, b0 0, ⟨hs, a4⟩, b0, trivial⟩, trivial, trivial⟩,
+      trivial, trivial⟩, trivial, by decide⟩
+  · simp only [X.Ev, XL.Ev]; decide
+  · simp only [X.Ar, XL.Ar, XL.length]; decide
+
+/-! non-vacuity of `float_div_by_zero_configured` / `float_div_by_zero_render`: in `7 / -0` the operands convert to a
+    number and to the zero −0; the result is −0 with divideByZeroReturnsZero and an error without -/
+example : floatFrom ⟨SoftFloat.f64, true⟩ (.str (symBytes "7")) = .ok 0x401C000000000000 ∧
+    floatFrom ⟨SoftFloat.f64, true⟩ (.str (symBytes "-0")) = .ok 0x8000000000000000 ∧
+    SoftFloat.isZero SoftFloat.f64 0x8000000000000000 = true ∧
+    binary ⟨SoftFloat.f64, true⟩ (symBytes "/") (.str (symBytes "7")) (.str (symBytes "-0")) = .ok (.num 0x8000000000000000) ∧
+    binary ⟨SoftFloat.f64, false⟩ (symBytes "%") (.str (symBytes "7")) (.str (symBytes "-0")) = .err := by decide
+
+end FloatValues
+
+
+/-! ## the IEEE-754 arithmetic itself (`Model/EvalSoftFloat.lean`, lemmas in `Lemmas/EvalSoftFloat.lean`) -/
+section FloatRounding
+open SoftFloat
+
+/-- "each operator applied with the library's own float arithmetic" — what the model's arithmetic IS: the magnitude
+    `roundMag f n d` every `+ - * /`, `math.Mod` result and every literal goes through is IEEE-754 round-to-nearest-even
+    of the exact rational `n/d`, completely: it returns the encoding `k·2^mb + q` where, with `e = k + emin` the
+    exponent of the last place, `q` is an integer within HALF a unit of `n/d / 2^e` (both directions), EVEN when the
+    quotient lies exactly half-way, the quotient itself when that is an integer — and `e` is the NORMALISING exponent:
+    `q ≤ 2^(mb+1)` and, above the subnormal range (`k ≠ 0`), `2^mb ≤ q` (exactly `mb+1` significant bits, or the carry
+    `q = 2^(mb+1)` whose encoding is the first value of the next binade) -/
+theorem float_rounding_nearest_even (f : Fmt) (n d : Nat) (hn : n ≠ 0) (hd : 0 < d) :
+    ∃ (k q : Nat), roundMag f n d = k * 2 ^ f.mb + q ∧
+      2 * ((q : Int) * (scaled n d (k + f.emin)).2 - (scaled n d (k + f.emin)).1) ≤ (scaled n d (k + f.emin)).2 ∧
+      2 * (((scaled n d (k + f.emin)).1 : Int) - q * (scaled n d (k + f.emin)).2) ≤ (scaled n d (k + f.emin)).2 ∧
+      (2 * ((scaled n d (k + f.emin)).1 % (scaled n d (k + f.emin)).2) = (scaled n d (k + f.emin)).2 → q % 2 = 0) ∧
+      (∀ j, (scaled n d (k + f.emin)).1 = j * (scaled n d (k + f.emin)).2 → q = j) ∧
+      q ≤ 2 ^ (f.mb + 1) ∧ (k ≠ 0 → 2 ^ f.mb ≤ q) := by
+  obtain ⟨k, q, h1, h2, h3, h4⟩ := roundMag_correct f n d hn (by omega)
+  refine ⟨k, q, h1, ?_, ?_, ?_, ?_, h3, h4⟩
+  · rw [h2]; exact (rne_nearest _ _ (scaled_den_pos n d _ hd)).1
+  · rw [h2]; exact (rne_nearest _ _ (scaled_den_pos n d _ hd)).2
+  · rw [h2]; exact rne_tie_even _ _
+  · intro j hj
+    rw [h2, hj]
+    exact rne_exact j _ (scaled_den_pos n d _ hd)
+
+/-- … and the encoding means what `decode` says: the bit pattern `k·2^mb + q` of a normal magnitude
+    (`2^mb ≤ q < 2^(mb+1)`, exponent index below the all-ones field) decodes to `+ q · 2^(k + emin)`, that of a
+    subnormal one (`q < 2^mb`) to `+ q · 2^emin` — so the result of the rounding is the float `q · 2^e` -/
+theorem float_encoding_decodes (f : Fmt) (k q : Nat) (heb : 1 ≤ f.eb) :
+    (2 ^ f.mb ≤ q → q < 2 * 2 ^ f.mb → k + 1 < f.emaxField →
+      decode f (k * 2 ^ f.mb + q) = .fin false q ((k : Int) + f.emin)) ∧
+    (q < 2 ^ f.mb → decode f q = .fin false q f.emin) :=
+  ⟨fun h1 h2 h3 => decode_encode_normal f k q h1 h2 h3, fun h => decode_encode_subnormal f q h heb⟩
+
+end FloatRounding
+
+/-! ## literals with an exponent inside the FIXED evaluator (`FixedFrom` → `f64.FromString` → `strconv.ParseFloat`, then
+    `From[T](float64)`), computed with the IEEE-754 model -/
+section FixedExponent
+open EvalFixed
+
+/-- operands written with an exponent (`1e2`, `2.5E-1`; "technically not valid input, but we'll try to convert it
+    anyway"): `FixedFrom` = `f64.FromString` takes them through `strconv.ParseFloat(str, 64)` and
+    `From[T](f) = Int[T](f * float64(Multiplier))` — in the model ONE correctly rounded float64 product of the parsed
+    value with the multiplier, truncated toward zero; a value beyond `int64` is left to the implementation -/
+theorem fixed_exponent_literal (c : Cfg) (s : Bytes) (x : Nat) (he : FixedText.fromStr64 c.places c.mult s = .exp)
+    (hb : (FixedText.stripCommas s).all floatByte = true)
+    (hp : SoftFloat.parse SoftFloat.f64 (FixedText.stripCommas s) = .ok x) :
+    fixedFrom c (.str s) = (match toInt64 (SoftFloat.mul SoftFloat.f64 x (f64OfNat c.mult.toNat)) with
+      | some v => .ok v | none => .outside) := by
+  simp only [fixedFrom, he, hb, if_true, fromExp, hp]
+  cases toInt64 (SoftFloat.mul SoftFloat.f64 x (f64OfNat c.mult.toNat)) <;> rfl
+
+/-- … where the multiplier `10^k` of every configuration `fixed.D1 … D16` of the regenerated table is EXACT as a
+    float64 (so the only rounding in `From[T](f)` is that of the product) -/
+theorem fixed_multiplier_exact_as_float (k : Nat) (z : Bool) (c : Cfg) (h : cfg? k z = some c) :
+    toInt64 (f64OfNat c.mult.toNat) = some c.mult := by
+  have hall : (List.range 17).all (fun k => match Fixed.mult? k with
+      | some m => decide (toInt64 (f64OfNat m.toNat) = some m) | none => true) = true := by decide
+  unfold cfg? at h
+  cases hp : Fixed.places? k with
+  | none => simp [hp] at h
+  | some p =>
+    cases hm : Fixed.mult? k with
+    | none => simp [hp, hm] at h
+    | some m =>
+      simp only [hp, hm, Option.some.injEq] at h
+      subst h
+      by_cases hk : k < 17
+      · have := (List.all_eq_true.mp hall) k (by simp [hk])
+        simpa [hm] using this
+      · exfalso
+        unfold Fixed.mult? at hm
+        have hlen : Facts.fixedConfigs.length = 16 := by decide
+        have : Facts.fixedConfigs[k - 1]? = none := List.getElem?_eq_none (by omega)
+        simp [this] at hm
+
+/-! non-vacuity and ground truth: `1e2` is 100 in D4; `1.15e0` is 1.14 in D2 (the float64 product 1.15 · 100 =
+    114.99999999999999 is truncated — the library's own arithmetic; `1.15` without exponent is 1.15); `1e400` is an error (ErrRange); `1e19` leaves int64 -/
+set_option maxRecDepth 8000 in
+example : fixedFrom ⟨4, 10000, true⟩ (.str (symBytes "1e2")) = .ok 1000000 ∧
+    fixedFrom ⟨2, 100, true⟩ (.str (symBytes "1.15e0")) = .ok 114 ∧
+    fixedFrom ⟨2, 100, true⟩ (.str (symBytes "1.15")) = .ok 115 ∧
+    fixedFrom ⟨2, 100, true⟩ (.str (symBytes "-2.5E-1")) = .ok (-25) ∧
+    fixedFrom ⟨4, 10000, true⟩ (.str (symBytes "1e400")) = .err ∧
+    fixedFrom ⟨4, 10000, true⟩ (.str (symBytes "true")) = .err ∧
+    fixedFrom ⟨4, 10000, true⟩ (.str (symBytes "1e19")) = .outside := by decide
+
+end FixedExponent
+
+/-! ## the `%v` text of a float number in the string fall-backs (`fmt.Sprintf("%v", left)` of float_operators.go) -/
+section FloatText
+open EvalFloat
+
+/-- the string fall-backs when a NUMBER meets a text that is not a number (`(1 + 2) + foo`): the number contributes
+    its `%v` text — Go's shortest `%g`, `SoftFloat.fmtG` — which `+` concatenates and the comparisons compare
+    byte-wise, on either side -/
+theorem float_number_meets_text (c : Cfg) (x : Nat) (a t : Bytes) (ha : SoftFloat.parse c.fmt a = .err)
+    (ht : SoftFloat.fmtG c.fmt x = some t) :
+    binary c (symBytes "+") (.num x) (.str a) = .ok (.str (t ++ a)) ∧
+    binary c (symBytes "+") (.str a) (.num x) = .ok (.str (a ++ t)) ∧
+    binary c (symBytes "==") (.num x) (.str a) = .ok (.bool (t == a)) ∧
+    binary c (symBytes "<") (.num x) (.str a) = .ok (.bool (strLt t a)) ∧
+    binary c (symBytes ">=") (.str a) (.num x) = .ok (.bool (!strLt a t)) := by
+  refine ⟨?_, ?_, ?_, ?_, ?_⟩ <;>
+    simp [binary, symBytes, String.utf8EncodeChar, opAdd, opEq, opLt, opGe, withFallback, floatFrom, ha, fmtV, onTexts, ht]
+
+/-! ground truth of the `%v` text (shortest digits that read back as the same float; `%e` form from exponent 6 and
+    below -4; at the evaluator's own precision): 0.1 + 0.2 prints 0.30000000000000004, a million 1e+06, the float32
+    nearest to 0.1 prints 0.1 and 16777216 prints 1.6777216e+07, the smallest subnormal 5e-324, and every text reads
+    back as the same bit pattern -/
+set_option maxRecDepth 8000 in
+example : SoftFloat.fmtG SoftFloat.f64 0x3FD3333333333334 = some (symBytes "0.30000000000000004") ∧
+    SoftFloat.parse SoftFloat.f64 (symBytes "0.30000000000000004") = .ok 0x3FD3333333333334 := by decide
+set_option maxRecDepth 8000 in
+example : SoftFloat.fmtG SoftFloat.f64 0x412E848000000000 = some (symBytes "1e+06") ∧
+    SoftFloat.fmtG SoftFloat.f64 0x40FE240000000000 = some (symBytes "123456") ∧
+    SoftFloat.fmtG SoftFloat.f64 0x3F1A36E2EB1C432D = some (symBytes "0.0001") ∧
+    SoftFloat.fmtG SoftFloat.f64 0x3EE4F8B588E368F1 = some (symBytes "1e-05") := by decide
+set_option maxRecDepth 8000 in
+example : SoftFloat.fmtG SoftFloat.f32 0x3DCCCCCD = some (symBytes "0.1") ∧
+    SoftFloat.fmtG SoftFloat.f32 0x4B800000 = some (symBytes "1.6777216e+07") ∧
+    SoftFloat.fmtG SoftFloat.f64 1 = some (symBytes "5e-324") ∧
+    SoftFloat.fmtG SoftFloat.f64 0x8000000000000000 = some (symBytes "-0") ∧
+    SoftFloat.fmtG SoftFloat.f64 0x7FF0000000000000 = some (symBytes "+Inf") ∧
+    SoftFloat.fmtG SoftFloat.f64 0x7FF8000000000000 = some (symBytes "NaN") := by decide
+
+end FloatText
 
 end C09
